@@ -938,3 +938,31 @@ func (c *Conn) playbackHotJournal() error {
 	}
 	return nil
 }
+
+// RollbackFailedCommit does what SQLite does when the finalising step of a COMMIT
+// returns an error: it plays the journal it still has back into the database
+// (pager_playback: truncate to the original size - zero pages for a database that
+// did not exist -, restore the journalled pages) and finalises the journal.
+func (c *Conn) RollbackFailedCommit() error {
+	if err := c.OpenDB(); err != nil {
+		return err
+	}
+	defer func() {
+		_ = c.Unlock(LockShared)
+		if c.jf != nil {
+			_ = c.jf.Close()
+			c.jf = nil
+		}
+		_ = c.Unlock(LockNone)
+	}()
+	if err := c.Lock(LockShared); err != nil {
+		return err
+	}
+	if !c.M.Exists(c.journalName()) {
+		return nil
+	}
+	if err := c.Lock(LockReserved); err != nil {
+		return err
+	}
+	return c.playbackHotJournal()
+}
